@@ -9,7 +9,7 @@ open Chan Shell
 inductive Data where
   | text (t : List Char)     -- `write_text(t)` then `read_text()`
   | bytes (d : Bytes)        -- `write_bytes(d)` then `read_bytes()`
-  deriving Repr, BEq, Inhabited
+  deriving Repr, DecidableEq, Inhabited
 
 structure Case where
   ash : Bool        -- false: Bash driver on bash; true: Ash driver on dash
@@ -25,7 +25,7 @@ inductive Val where
   | bytes (d : Bytes)        -- `read_bytes` returned `d`
   | err (tag : String)       -- it raised
   | skip                     -- not called (the write raised)
-  deriving Repr, BEq, Inhabited
+  deriving Repr, DecidableEq, Inhabited
 
 structure Obs where
   ret : Val                  -- the write
@@ -35,7 +35,7 @@ structure Obs where
   txR : Bytes                -- … during the read
   piecesW : List Nat         -- sizes of the transport deliveries during the write
   piecesR : List Nat         -- … during the read
-  deriving Repr, BEq, Inhabited
+  deriving Repr, DecidableEq, Inhabited
 
 def prompt (c : Case) : Bytes := if c.ash then Params.ashPrompt else Params.bashPrompt
 def blacklist (c : Case) : Bytes := if c.ash then Params.ashBlacklist else Params.bashBlacklist
